@@ -226,16 +226,13 @@ Section SolveProofs.
 
   Theorem run_partial s T dt dts cutoff cols y0 c0 :
     let d := match dts with Some d => d | None => dt end in
-    rows_fit T dt d = true -> frame_ok T d (length cols) = true ->
+    rows_fit T dt d = true -> frame_ok T d = true ->
     run_model f s T dt dts cutoff cols y0 c0 = Rows (spec_run f s T dt dts cutoff cols y0 c0).
   Proof.
     intros d Hfit Hok. unfold run_model, spec_run. fold d.
-    rewrite solve_partial by assumption. unfold frame_ok in Hok. apply andb_prop in Hok as [Hn H1].
+    rewrite solve_partial by assumption. unfold frame_ok in Hok.
     destruct (rnd (T / d) =? 0) eqn:E0; [lia|].
-    assert (E1 : negb fixed_D35 && (rnd (T / d) =? 1) && (2 <=? length cols) = false).
-    { revert H1. generalize fixed_D35. intros [] H1; cbn [negb andb orb] in *; [reflexivity|].
-      rewrite negb_true_iff in H1. exact H1. }
-    rewrite E1. unfold spec_rows. now rewrite frame_of_maps.
+    unfold spec_rows. now rewrite frame_of_maps.
   Qed.
 
   (* the loud classes of run() *)
@@ -244,16 +241,6 @@ Section SolveProofs.
     1 <= rnd (d / dt) -> rnd (T / d) < cdiv (rnd (T / dt)) (rnd (d / dt)) ->
     run_model f s T dt dts cutoff cols y0 c0 = ErrIndex.
   Proof. intros d H1 H2. unfold run_model. fold d. now rewrite solve_index_error. Qed.
-
-  Theorem run_single_row_shape_error s T dt dts cutoff cols y0 c0 :
-    let d := match dts with Some d => d | None => dt end in
-    fixed_D35 = false -> rows_fit T dt d = true -> rnd (T / d) = 1 -> 2 <= length cols ->
-    run_model f s T dt dts cutoff cols y0 c0 = ErrShape.
-  Proof.
-    intros d Hfix Hfit Hn Hc. unfold run_model. fold d. apply rows_fit_true in Hfit as [H1 H2].
-    rewrite solve_rows by assumption. rewrite Hn, Hfix. cbn [Nat.eqb andb negb].
-    destruct (2 <=? length cols) eqn:E; [reflexivity|lia].
-  Qed.
 
   (* what the Spec says, spelled out: which rows, in which order, with which time stamp *)
   Theorem spec_run_rows s T dt dts cutoff cols y0 c0 r :
@@ -377,12 +364,12 @@ Lemma heun_before_D36_differs :
   row_eqb (fst (heun_step_before_D36 (lin_f wit_rhs) (mkq 1 4) 0 0 [mkq 1 1])) [mkq 121 128] = true.
 Proof. split; vm_compute; reflexivity. Qed.
 
-(* one stored sample, two requested columns: ValueError from the DataFrame constructor (the single row once repaired) *)
-Lemma refuted_single_row :
+(* one stored sample, two requested columns: the 1-row frame (before fix D62: ValueError from the DataFrame constructor) *)
+Lemma single_row_after_D62 :
   outcome_eqb (run_model (lin_f wit_rhs2) Euler (mkq 1 8) (mkq 1 8) None (mkq 0 1) [0; 1] [mkq 1 1; mkq 2 1] 0)
-              (if fixed_D35 then Rows [[mkq 0 1; mkq 1 1; mkq 2 1]] else ErrShape) = true /\
-  frame_ok (mkq 1 8) (mkq 1 8) 2 = fixed_D35.
-Proof. split; vm_compute; reflexivity. Qed.
+              (Rows [[mkq 0 1; mkq 1 1; mkq 2 1]]) = true /\
+  rows_fit (mkq 1 8) (mkq 1 8) (mkq 1 8) = true /\ frame_ok (mkq 1 8) (mkq 1 8) = true.
+Proof. repeat split; vm_compute; reflexivity. Qed.
 
 (* what fix D05 changed: T = 1, dts = 3/8 (dt = 1/8): rows are the states at 0, 3/8, 3/4; linspace said 0, 1/3, 2/3 *)
 Lemma linspace_axis_differs :
